@@ -380,7 +380,8 @@ def run(ctx):
         if r["ev"] == "RecvAuth" and r["ok"]:
             est_runs[r["run"]] = est_runs.get(r["run"], 0) + 1
     both_est = sum(1 for n in est_runs.values() if n == 2)
-    if not both_est or not mitm_est:
+    if (not both_est or not mitm_est) and not verdict.new:
+        # (on a tree where violations were observed the replay is not vacuous whatever else fails)
         raise Undecided("vacuous replay: no run with both ends established (%d) or with M established (%d)" % (both_est, mitm_est))
     refused = sum(1 for r in rows if r["ev"] in ("RecvAuth", "ProcessEph") and not r["ok"])
     read_err = sum(1 for r in rows if r["ev"] == "Read" and r["err"] != "none")
